@@ -509,6 +509,16 @@ def run(pid, tier, seed, extra=None):
     if pid in ('C01', 'C02', 'C05', 'C06'):
         from checks import legacy_e2e
         legacy_e2e.run_e2e(ck, pid, tier, seed)
+    # the other download front-ends named in the property's anchors
+    if pid == 'C06':
+        from checks import c19, c20
+        c19.facet(ck, tier, seed, ['C19_AtDoneFileInPlaceOrTempRemoved', 'C19_DestNeverPartial',
+                                   'R_DestNeverPartial', 'R_AgreesAtDone'], 'C06_PP_')
+        c20.facet(ck, tier, seed, ['C20_RenameOnSuccessRemoveOnError', 'R_NoTempWhenComplete',
+                                   'R_DestNeverPartial'], 'C06_CRT_')
+    if pid == 'C02':
+        from checks import c19
+        c19.facet(ck, tier, seed, ['R_ResultTruthful', 'R_AgreesAtDone'], 'C02_PP_')
     pipeline.close_pool()
     return ck.finish()
 
@@ -523,5 +533,11 @@ def replay(path):
     if rp.get('kind') == 'legacy':
         from checks import legacy_e2e
         return legacy_e2e.replay(rp)
+    if rp.get('kind') == 'c19':
+        from checks import c19
+        return c19.replay(path)
+    if rp.get('kind') == 'c20':
+        from checks import c20
+        return c20.replay(path)
     print(json.dumps(body, indent=1)[:3000])
     return 1
